@@ -13,10 +13,10 @@
    observe exactly [observe (run_seq codes)].
 
    Vocabulary:
-     run_seq codes      the events of a caller that performs the API calls [codes] one after the other (34 calls:
+     run_seq codes      the events of a caller that performs the API calls [codes] one after the other (37 calls:
                         Secret::new valid/invalid, From/TryFrom, expose_*, Nullifier::{new, from_preimage, From<&CircuitInputs>,
                         to_bytes, from_bytes, to_field_elements, from_field_elements, error paths}, the same for
-                        UnspendableAccount, drops) and finally drops everything it still holds; other codes are no-ops
+                        UnspendableAccount, drops, and the public SensitiveFelts::new on a caller Vec with spare capacity + read + drop) and finally drops everything it still holds; other codes are no-ops
      trace_safe t       executable checker;  safe_from s t  the same as an inductive Prop over block statuses
                         (Dead | Clean | Tainted = secret written, not zeroed since), spelled out below
      observe t          the (size, kind) list the allocator scan must see: 1 = freed after scrub, 2 = upstream pad buffer,
